@@ -45,6 +45,13 @@
 (* encodes code points above U+FFFF as surrogate pairs; JS -> Go decodes   *)
 (* surrogate pairs and encodes UTF-8 (unpaired surrogates: Unspec).        *)
 (*                                                                         *)
+(* Wrapper structs.  "For a struct containing a *js.Object field, only the  *)
+(* content of the field will be passed to JavaScript and vice versa":      *)
+(* JsFieldIdx(t) is the (first) field of that type, wherever it stands;    *)
+(* such a struct externalises to the object it wraps and internalises by   *)
+(* wrapping.  null read at a pointer to such a struct is left undefined    *)
+(* (nil pointer and pointer to a wrapper of null are both null).           *)
+(*                                                                         *)
 (* State: the cache that makes the same Go function externalise to the     *)
 (* same JavaScript function (pure form ExternalizeFuncs here) and the      *)
 (* callback guard ("cannot block in JavaScript callback"); the state       *)
